@@ -69,6 +69,41 @@ def c10_build(valid, unit, v, r, new_id):
     return c.line(new_id)
 
 
+def decode_variants(valid, rnd):
+    """C04: a server that sends BOTH spellings of a typed variable (`AdminName` and `admin`): the long one is the
+    admin's name, the short one is a variable like any other and belongs in the unused entries.  The generated state uses
+    one spelling; the variant adds `\\admin\\root` behind an `AdminName` pair and expects one more unused entry."""
+    import copy, re
+    if valid.notwf or not valid.want.startswith("OK") or " gs1vars " in valid.line or rnd.random() < 0.3:
+        return []
+    c = valid.case()
+    if not c.script or c.script[0] == "X":
+        return []
+    key = b"\\AdminName\\"
+    for i, d in enumerate(c.script[0]):
+        if d is None or key not in d or b"\\admin\\" in b"".join(x for x in c.script[0] if x):
+            continue
+        at = d.index(key) + len(key)
+        end = d.find(b"\\", at)
+        if end < 0:
+            continue
+        c.script[0][i] = d[:end] + b"\\admin\\root" + d[end:]
+        m = re.search(r" U\[([^\]]*)\]", valid.want)
+        if m is None:
+            return []
+        entries = [e for e in m.group(1).split(",") if e]
+        entries.append("x" + b"admin".hex() + "=x" + b"root".hex())
+        entries.sort(key=lambda e: bytes.fromhex(e.split("=")[0][1:]))
+        v = copy.copy(valid)
+        v.tags = dict(valid.tags)
+        v.tags["THM"] = "0"
+        v.want = valid.want[:m.start()] + " U[" + ",".join(entries) + "]" + valid.want[m.end():]
+        v.id = valid.id + "b"
+        v.line = c.line(v.id)
+        return [v]
+    return []
+
+
 def c10_plan_request(valid, unit, v, r):
     """model-driver request for the SPEC's plan script of this (base, unit, vector, r) — see props/families/valve.py;
     theorems C10_gs1_query_* (Props/C10_gs1_whole.lean)"""
